@@ -290,6 +290,27 @@ def write_replay(pid, name, obj):
 
 
 # ------------------------------------------------------------ the main flow
+def changed_functions(prop):
+    """Functions (file:Recv.Func keys from goextract's funchash.json) in the
+    files this property watches whose body hash differs from funchash.base.json."""
+    watch = getattr(prop, "watch", ())
+    if not watch:
+        return []
+    try:
+        cur = json.load(open(os.path.join(BUILD, "funchash.json")))
+        base = json.load(open(os.path.join(VERIF, "funchash.base.json")))
+    except (OSError, ValueError):
+        return []
+    import fnmatch
+    out = []
+    for k in sorted(set(cur) | set(base)):
+        if cur.get(k) != base.get(k):
+            f = k.split(":", 1)[0]
+            if any(fnmatch.fnmatch(f, w) for w in watch):
+                out.append(k)
+    return out
+
+
 class Prop:
     """Per-property description; subclasses / instances override fields.
 
@@ -399,6 +420,12 @@ def main_check(prop, argv):
     if err:
         broken.append(("translator", err[-3000:]))
 
+    # 1b. change-directed amplification: if the body of a function in a file this
+    # property watches differs from the recorded base, run the correspondence at
+    # thorough size even in the quick tier (a changed hash raises nothing by itself)
+    amplified = changed_functions(prop)
+    stage_tier = "thorough" if amplified else tier
+
     # 2. proofs
     ok, log = coq_make(prop.targets(), clean=False)
     if not ok:
@@ -433,7 +460,7 @@ def main_check(prop, argv):
             r["stage"] = st["name"]
             rs.append(r)
         return rs
-    stage_results = run_all(tier, ["-replay", a.replay] if a.replay else [])
+    stage_results = run_all(stage_tier, ["-replay", a.replay] if a.replay else [])
     def collect(rs):
         nv, kh, mm, errs = [], {}, [], []
         for r in rs:
@@ -457,7 +484,7 @@ def main_check(prop, argv):
 
     # 4. if something no longer checks and no failing input yet, search deeper
     searched = False
-    if broken and not new_viol and tier == "quick" and not a.replay:
+    if broken and not new_viol and stage_tier == "quick" and not a.replay:
         searched = True
         deep = run_all("thorough")
         v2, k2, m2, e2 = collect(deep)
@@ -520,6 +547,7 @@ def main_check(prop, argv):
                     "failing_cases": len(r.get("fails", []))} for r in stage_results],
         "correspondence_note": "generated cases are differential testing of model vs implementation and validator runs on implementation outputs; they are not proof obligations",
         "known_findings_reproduced": sorted(known_hit.keys()),
+        "amplified_by_changed_functions": amplified[:20],
         "broken": [b[0] for b in broken],
         "forbidden_scan": "clean" if not bad else bad,
     }
